@@ -326,7 +326,7 @@ fn render(a: &Value, ukeys: &[Key]) -> String {
         "del" => format!("delete({})", k("k")),
         "dels" => format!("delete_specific({}, rid {})", k("k"), a["r"]),
         "reload" => "BTreeIndex::load(same PageManager)".to_string(),
-        "reopen" => "drop index + PageManager; PageManager::new(same file); BTreeIndex::load".to_string(),
+        "reopen" => "PageManager::flush; drop index + PageManager; PageManager::new(same file); BTreeIndex::load".to_string(),
         x => x.to_string(),
     }
 }
@@ -414,8 +414,14 @@ fn worker(inp: &str, out: &str, cfg: &str, start: usize) {
                     (o, m)
                 }
                 "reopen" => {
+                    // clean close: flush the page manager (its only persistence call), drop index and manager, then
+                    // open the same file again and load the index from its metadata page
                     let s = sut.take().expect("no index");
                     let dir = s.dir.clone();
+                    let (fo, _, fm) = guarded(|| s.pm.flush().map_err(es));
+                    if fo != "ok" {
+                        ev["flush"] = json!(format!("{} {}", fo, fm));
+                    }
                     drop(s);
                     let (o, v, m) = guarded(|| {
                         let pm = open_pm(&dir)?;
@@ -433,6 +439,13 @@ fn worker(inp: &str, out: &str, cfg: &str, start: usize) {
             }
             if out == "ok" && a["pr"].as_bool().unwrap_or(false) {
                 probes(sut.as_ref().unwrap(), &ukeys, &hdr, &mut ev);
+            } else if out == "ok" {
+                // shape of the tree after a call without probes (evidence of the structural transitions only; not validated)
+                let d = dump(sut.as_ref().unwrap(), &ukeys);
+                let nodes = d["nodes"].as_array().cloned().unwrap_or_default();
+                let lv: Vec<Value> = nodes.iter().filter(|n| n["t"] == "L").map(|n| json!([n["id"], n["ks"]])).collect();
+                let inn: Vec<Value> = nodes.iter().filter(|n| n["t"] == "I").map(|n| json!([n["id"], n["ch"]])).collect();
+                ev["sh"] = json!({"h": d["h"], "in": inn, "lv": lv});
             }
             emit(&ev);
             if out != "ok" {
